@@ -284,6 +284,7 @@ int item_check(struct item *it, const IMB_JOB *job, const char *prop, struct mmg
                const char *ctx);
 const char *item_describe(const struct item *it); /* JSON object text */
 int item_is_parking(const struct item *it, int variant);
+const char *item_fault_suite(const struct item *it, const char *kind);
 void refs_selftest_or_die(void);
 
 /* ------------------------------------------------------------------ engines */
